@@ -270,6 +270,71 @@ fn main() {
             }
         }
     }
+    // ---- C06: big tables (several thousand rows, above 2048 x threads) with a few unions, so
+    //      that the chunked parallel rebuild / merge / index paths see more than one chunk per
+    //      worker; raw text programs, 1-thread and alt-thread engines in lockstep.
+    if prop == "C06" && o.replay.is_none() && o.extra.iter().any(|x| x == "--big-tables") {
+        let sizes: &[(usize, usize)] = if o.thorough { &[(70, 50), (80, 50), (95, 37), (120, 61)] } else { &[(80, 50)] };
+        for (side, stride) in sizes {
+            raw_cases += 1;
+            let setup = "(datatype S (F i64) (G S))\n(relation N (i64))\n(relation AllOk (i64))\n(ruleset gen-n)\n(ruleset gen-terms)\n(ruleset do-union)\n(ruleset walk)\n(N 0)\n".to_string();
+            let last = (side * side / stride - 1) * stride;
+            let steps = vec![
+                format!("(rule ((N i) (< i {})) ((N (+ i 1))) :ruleset gen-n)", side - 1),
+                "(run-schedule (saturate (run gen-n)))".to_string(),
+                format!("(rule ((N i) (N j)) ((G (F (+ (* {side} i) j)))) :ruleset gen-terms)"),
+                "(run-schedule (run gen-terms))".to_string(),
+                format!("(rule ((= a (F k)) (= b (F (+ k 1))) (= 0 (% k {stride}))) ((union a b)) :ruleset do-union)"),
+                "(run-schedule (run do-union))".to_string(),
+                "(rule ((= (G (F 0)) (G (F 1)))) ((AllOk 0)) :ruleset walk)".to_string(),
+                format!("(rule ((AllOk k) (= (G (F (+ k {stride}))) (G (F (+ k {})))) ) ((AllOk (+ k {stride}))) :ruleset walk)", stride + 1),
+                "(run-schedule (saturate (run walk)))".to_string(),
+            ];
+            let probes = vec!["(= (G (F 0)) (G (F 1)))".to_string(), format!("(AllOk {last})"), format!("(AllOk {})", last / 2 / stride * stride)];
+            let mut a = egglog::EGraph::default();
+            let mut b = egglog::EGraph::default().with_num_threads(alt_threads);
+            let (ra, _) = step(&mut a, &setup);
+            let (rb, _) = step(&mut b, &setup);
+            if ra.is_err() || rb.is_err() {
+                viols.push(Viol { what: format!("harness: big-table setup rejected: {:?}", ra.err().or(rb.err())), key: "harness-header".into(), program: setup.clone(), at: 0 });
+                continue;
+            }
+            let mut done = String::new();
+            for (k, st) in steps.iter().enumerate() {
+                let (ra, pa) = step(&mut a, st);
+                let (rb, pb) = step(&mut b, st);
+                done.push_str(st);
+                done.push('\n');
+                let mut diff: Option<String> = None;
+                if ra.is_ok() != rb.is_ok() || pa || pb {
+                    diff = Some(format!("command outcome differs (1 thread {:?}, {alt_threads} threads {:?})", ra.as_ref().map(|_| ()), rb.as_ref().map(|_| ())));
+                }
+                if diff.is_none() && k >= 5 {
+                    for pr in &probes {
+                        let (ca, _) = step(&mut a, &format!("(check {pr})"));
+                        let (cb, _) = step(&mut b, &format!("(check {pr})"));
+                        if ca.is_ok() != cb.is_ok() {
+                            diff = Some(format!("(check {pr}) {} with 1 thread but {} with {alt_threads} threads", if ca.is_ok() { "holds" } else { "fails" }, if cb.is_ok() { "holds" } else { "fails" }));
+                            break;
+                        }
+                    }
+                    if diff.is_none() {
+                        let fmt = |r: Result<Vec<egglog::CommandOutput>, String>| r.map(|o| o.iter().map(|x| x.to_string()).collect::<String>()).unwrap_or_else(|e| e);
+                        let (sa, _) = step(&mut a, "(print-size)");
+                        let (sb, _) = step(&mut b, "(print-size)");
+                        let (sa, sb) = (fmt(sa), fmt(sb));
+                        if sa != sb {
+                            diff = Some(format!("table sizes differ: 1 thread {sa:?}, {alt_threads} threads {sb:?}"));
+                        }
+                    }
+                }
+                if let Some(dm) = diff {
+                    viols.push(Viol { what: format!("big tables ({side}x{side} terms), after `{st}`: {dm}"), key: "C06-threads-differ".into(), program: format!("{setup}{done}"), at: k });
+                    break;
+                }
+            }
+        }
+    }
     for (ci, (p, tag)) in programs.iter().enumerate() {
         let text = p.text();
         let fresh = distinct.insert(text.clone());
@@ -864,7 +929,7 @@ fn main() {
         "err_hist": err_hist,
         "size_hist": size_hist,
         "err_samples": err_samples,
-        "extra_coverage": {"invariant_twin_evaluations": twin_evals, "model_cases": model_cases, "nested_container_lockstep_programs": raw_cases}
+        "extra_coverage": {"invariant_twin_evaluations": twin_evals, "model_cases": model_cases, "raw_lockstep_programs": raw_cases}
     });
     std::fs::write(o.out.join("impl_report.json"), serde_json::to_string(&rep).unwrap()).unwrap();
 }
